@@ -200,6 +200,9 @@ func init() {
 			n = f.n
 		}
 		for i := 0; i < n; i++ {
+			if rep.outOfTime() {
+				break
+			}
 			hseed := r.Int63()
 			hr := rand.New(rand.NewSource(hseed))
 			cfgs := []engine.Config{
